@@ -91,6 +91,11 @@ func (v *VM) VerifIns(i int) (op string, a, b, c int) {
 	return ins.Code.String(), int(ins.A), int(ins.B), int(ins.C)
 }
 
+// VerifOp is the numeric opcode of the instruction about to execute;
+// VerifOpName names an opcode (empty for numbers that are not opcodes).
+func (v *VM) VerifOp() int       { return int(v.frame.Codes[v.frame.N].Code) }
+func VerifOpName(op int) string { return code(op).String() }
+
 // VerifInsPos renders the source position of instruction i of the running frame.
 func (v *VM) VerifInsPos(i int) string { return v.frame.Codes[i].Pos.String(v.globals) }
 
